@@ -69,11 +69,17 @@ def catalogue(tk):
         if k2 != tk:
             out.append((f"kind-mismatch-{k2}", newvec(k2, "DEV", vec, [one(k2, e1, VALID[k2])]), {}, True))
     out.append(("no-children", newvec(wk, "DEV", vec, []), {}, True))
+    out.append(("empty-device-name", newvec(wk, "", vec, [one(wk, e1, v)]), {}, True))
+    out.append(("empty-property-name", newvec(wk, "DEV", "", [one(wk, e1, v)]), {}, True))
+    out.append(("empty-element-name", newvec(wk, "DEV", vec, [one(wk, "", v)]), {}, True))
+    out.append(("device-name-differs-in-case", newvec(wk, "dev", vec, [one(wk, e1, v)]), {}, True))
+    out.append(("device-name-with-blank", newvec(wk, "DEV ", vec, [one(wk, e1, v)]), {}, True))
     if tk in ("Text", "Number"):
         alt = "other" if tk == "Text" else "7.25"
         out.append(("duplicate-children", newvec(wk, "DEV", vec, [one(wk, e1, v), one(wk, e1, alt)]), {(vec, e1): [v, alt]}, True))
         out.append(("absent-value", newvec(wk, "DEV", vec, [one(wk, e1, None)]), {(vec, e1): [None]}, True))
     if tk == "Switch":
+        out.append(("duplicate-switch-children", newvec("Switch", "DEV", vec, [one("Switch", e1, "On"), one("Switch", e1, "Off"), one("Switch", e1, "On")]), {(vec, e1): "any", (vec, e2): "any"}, True))
         out.append(("invalid-switch-text", newvec("Switch", "DEV", vec, [one("Switch", e1, "Maybe")]), {}, False))
         out.append(("absent-switch-value", newvec("Switch", "DEV", vec, [one("Switch", e1, None)]), {}, False))
     if tk == "Number":
@@ -81,6 +87,8 @@ def catalogue(tk):
         for huge in ("1e999", "-1e999", "1e308", "9" * 400, "1e-999"):
             out.append(("number-out-of-range", newvec("Number", "DEV", vec, [one("Number", "A", huge)]), {(vec, "A"): "any"}, True))
             out.append(("number-out-of-range-sexagesimal-format", newvec("Number", "DEV", vec, [one("Number", "S", huge)]), {(vec, "S"): "any"}, True))
+        out.append(("sexagesimal-minutes-over-59", newvec("Number", "DEV", vec, [one("Number", "A", "1:75")]), {(vec, "A"): "any"}, True))
+        out.append(("valid-after-out-of-range", newvec("Number", "DEV", vec, [one("Number", "S", "1e999"), one("Number", "A", "2.5")]), {(vec, "A"): ["2.5"], (vec, "S"): "any"}, True))
         for bad in ("abc", "1:2:3:4", "--1", "1,5"):
             out.append((f"invalid-number-text", newvec("Number", "DEV", vec, [one("Number", e1, bad)]), {}, False))
     if tk == "BLOB":
